@@ -18,7 +18,9 @@ RING_CHOICES = [None, 0, 1, 2, 3, 10, 64]
 
 def c01_configs(rng: random.Random, case: Dict[str, Any]) -> List[Dict[str, Any]]:
     version = rng.randrange(4)
-    return [{'engine': e, 'version': version} for e in ('featured', 'fast', 'native')]
+    # (the last-ops ring of length 10 is what the fj command and the quickstart API run with: the native engine then takes its
+    # generic loop instead of the flat one)
+    return [{'engine': e, 'version': version} for e in ('featured', 'fast', 'native')] + [{'engine': 'native', 'version': version, 'ring': 10}]
 
 
 def c07_configs(rng: random.Random, case: Dict[str, Any], wide: bool = False) -> List[Dict[str, Any]]:
